@@ -112,7 +112,8 @@ func afPrelude() []afCase {
 	for _, u := range []string{"https://evil.io/cb", "https://notx.io/cb", "https://x.io.evil.io/", "https://x.io@evil.io/", "https://evil.io/x.io", "https://evil.io?x.io",
 		"https://evil.io#.x.io", "https://app.x.io:8443/cb", "https://APP.X.IO/cb", "https://x.io/", "https://x.io./", "https://foo.apps.y.io/cb", "https://apps.y.io/cb",
 		"//app.x.io/cb", "/relative", "app.x.io/cb", "javascript://app.x.io/%0aalert(1)", "https://user:pw@app.x.io/", "https://evil.io\\@app.x.io/", "https:///app.x.io",
-		"https://[::1%25.x.io]/", "http://[::1]/", "https://app.x.io/%2e%2e/..", "https://app.x.io/a b", "https://evil.io/.x.io", "https://evil.io%2f.x.io/", "https://evil.io\t.x.io/", ""} {
+		"https://[::1%25.x.io]/", "http://[::1]/", "https://app.x.io/%2e%2e/..", "https://app.x.io/a b", "https://evil.io/.x.io", "https://evil.io%2f.x.io/", "https://evil.io\t.x.io/", "",
+		"https://io/cb", "https://y.io/cb", "https://o/", "https://.io/", "https://ps.y.io/cb", "https://.x.io/", "https://ax.io/"} { // ancestors and near-misses of the root domains
 		urls = append(urls, signIn("google", uri(u), "sess", sess(nil), nil))
 		urls = append(urls, afStep{Slug: "google", Endpoint: "sign_out", Method: "POST", Sign: &afSign{URI: u, In: "form"}, Cookie: "sess", Sess: sess(nil)})
 	}
@@ -136,14 +137,16 @@ func afPrelude() []afCase {
 		flows = append(flows, start("google"), cb("google", func(s *afStep) { s.Token = tok(t) }))
 	}
 	for _, rep := range []afIdP{{Kind: "status", Status: 400}, {Kind: "status", Status: 401}, {Kind: "status", Status: 429}, {Kind: "status", Status: 500}, {Kind: "transport"},
-		{Kind: "raw", Raw: "{\"access_token\": \"x\""}, {Kind: "raw", Raw: "[]"}, {Kind: "raw", Raw: "{}"}, {Kind: "raw", Raw: ""}} {
+		{Kind: "raw", Raw: "{\"access_token\": \"x\""}, {Kind: "raw", Raw: "[]"}, {Kind: "raw", Raw: "{}"}, {Kind: "raw", Raw: ""},
+		{Kind: "raw", Raw: "null"}, {Kind: "raw", Raw: " null\n"}, {Kind: "raw", Raw: "42"}, {Kind: "raw", Raw: "\"s\""}} {
 		rep := rep
 		flows = append(flows, start("google"), cb("google", func(s *afStep) { s.Token = rep }))
 		flows = append(flows, start("okta"), cb("okta", func(s *afStep) { s.Token = rep }))
 	}
 	flows = append(flows, start("okta"), cb("okta", nil))
 	for _, u := range []afIdP{{Kind: "ok", Email: "ann@x.io", Verified: false}, {Kind: "ok", Email: "", Verified: true}, {Kind: "status", Status: 401}, {Kind: "status", Status: 503},
-		{Kind: "transport"}, {Kind: "raw", Raw: "nonsense"}, {Kind: "raw", Raw: "{\"email\": 5}"}, {Kind: "ok", Email: "eve@evil.io", Verified: true}} {
+		{Kind: "transport"}, {Kind: "raw", Raw: "nonsense"}, {Kind: "raw", Raw: "{\"email\": 5}"}, {Kind: "ok", Email: "eve@evil.io", Verified: true},
+		{Kind: "raw", Raw: "null"}, {Kind: "raw", Raw: " null "}, {Kind: "raw", Raw: "[]"}, {Kind: "raw", Raw: "7"}, {Kind: "raw", Raw: "{}"}} {
 		u := u
 		flows = append(flows, start("okta"), cb("okta", func(s *afStep) { s.User = u }))
 	}
@@ -166,6 +169,18 @@ func afPrelude() []afCase {
 		afStep{Slug: "google", Endpoint: "start", Query: [][2]string{{"redirect_uri", "https://" + afHost + "/google/sign_in?redirect_uri=https%3A%2F%2Fapp.x.io%2Foauth2%2Fcallback&sig=bad&ts=1"}}},
 		afStep{Slug: "google", Endpoint: "start"},
 	)
+	for _, acc := range []string{"text/plain", "text/plain, */*", "text/*;q=0.9", "application/json", "application/json, text/plain", "*/*", ""} {
+		acc := acc
+		for _, msg := range []string{"<script>alert(1)</script>", "  <b>denied</b>", "<!-- x --><a href=//evil.io>go</a>", "plain denied"} {
+			msg := msg
+			flows = append(flows, start("google"), cb("google", func(s *afStep) {
+				s.Query = [][2]string{{"code", "c"}, {"state", "{IDPSTATE}"}, {"error", msg}}
+				if acc != "" {
+					s.Headers = map[string]string{"Accept": acc}
+				}
+			}))
+		}
+	}
 	cases = append(cases, base(flows...))
 	// sign-out
 	so := func(method string, sg *afSign, cookie string, rev afIdP) afStep {
@@ -318,7 +333,7 @@ func init() {
 			emit(c)
 		}
 		// random recombination of the prelude's steps with mutated fields
-		hosts := []string{"app.x.io", "x.io", "evil.io", "x.io.evil.io", "notx.io", "a.apps.y.io", "apps.y.io", "APP.x.io", "app.x.io:443", "[::1%25.x.io]", "x.io.", "evil.io\\@app.x.io", "u:p@app.x.io", "app.x.io@evil.io"}
+		hosts := []string{"app.x.io", "x.io", "evil.io", "x.io.evil.io", "notx.io", "a.apps.y.io", "apps.y.io", "APP.x.io", "app.x.io:443", "[::1%25.x.io]", "x.io.", "evil.io\\@app.x.io", "u:p@app.x.io", "app.x.io@evil.io", "io", "y.io", "o", ".io", "ps.y.io"}
 		schemes := []string{"https://", "http://", "//", "", "javascript://", "HTTPS://"}
 		paths := []string{"/oauth2/callback", "/", "", "/?x=.x.io", "/#.x.io", "/%2e%2e"}
 		emails := []string{"ann@x.io", "Ann@X.IO", "eve@evil.io", "ann@x.io.evil.io", "", "x@notx.io", "\"<b>x</b><script>1</script>\"@x.io"}
